@@ -139,8 +139,10 @@ impl HistoricalView for ChainDb {
 }
 
 impl Modifiable for ChainDb {
-    /// Same contract as `Database<OnChain>`: a commit carries at most one new
-    /// block height, which must be the successor of the current one.
+    /// Like `Database<OnChain>`: a commit carries at most one new block height,
+    /// which must be the successor of the current one. Unlike it, a commit
+    /// without a new height is applied to the current state instead of being
+    /// refused, so that stray writes (e.g. from a dry run) become visible.
     fn commit_changes(&mut self, changes: Changes) -> StorageResult<()> {
         let mut heights = vec![];
         if let Some(m) = changes.get(&Column::FuelBlocks.id()) {
@@ -158,7 +160,6 @@ impl Modifiable for ChainDb {
         let latest = g.snaps.len().checked_sub(1).map(|h| h as u32);
         match (latest, heights.first()) {
             (Some(p), Some(n)) if *n != p + 1 => return Err(anyhow::anyhow!("heights are not linked: {p} -> {n}").into()),
-            (Some(p), None) => return Err(anyhow::anyhow!("new height is not set after {p}").into()),
             _ => {}
         }
         let mut d: Dump = (*g.cur.0).clone();
@@ -176,9 +177,11 @@ impl Modifiable for ChainDb {
             }
         }
         g.cur = MemDb(Arc::new(d));
+        let c = g.cur.0.clone();
         if heights.first().is_some() {
-            let c = g.cur.0.clone();
             g.snaps.push(c);
+        } else if let Some(last) = g.snaps.last_mut() {
+            *last = c;
         }
         Ok(())
     }
@@ -451,9 +454,12 @@ pub fn produce(
             let h = *header.height();
             let v: Vec<MaybeCheckedTransaction> = txs
                 .into_iter()
-                .map(|tx| match tx.clone().into_checked(h, &u.cp) {
-                    Ok(c) => MaybeCheckedTransaction::CheckedTransaction(CheckedTransaction::from(c), header.consensus_parameters_version),
-                    Err(_) => MaybeCheckedTransaction::Transaction(tx),
+                .map(|tx| {
+                    // the pool checked the transaction when it arrived: at this height, or at an earlier one
+                    match tx.clone().into_checked(h, &u.cp).or_else(|_| tx.clone().into_checked(BlockHeight::new(1), &u.cp)) {
+                        Ok(c) => MaybeCheckedTransaction::CheckedTransaction(CheckedTransaction::from(c), header.consensus_parameters_version),
+                        Err(_) => MaybeCheckedTransaction::Transaction(tx),
+                    }
                 })
                 .collect();
             let c = Components {
